@@ -291,6 +291,34 @@ def name_battery(repo, seed=0, n=40):
                         bs, lst['stdout'][-200:]))
                 except UnicodeDecodeError:
                     pass
+    # "any depth, names up to 255 bytes": a deep path of long multi-byte names
+    # (raw < PATH_MAX, escaped form > 5 KB) and a 255-byte name
+    for levels, width, leaf in ((8, 80, 'file.txt'), (1, 1, '\u4e07' * 85)):
+        with Sandbox(repo) as sb:
+            work = sb.path('w')
+            d = work
+            for k in range(levels):
+                d = os.path.join(d, chr(0x4e00 + k) * width)
+            os.makedirs(d)
+            p = os.path.join(d, leaf)
+            open(p, 'w').write('x')
+            td = sb.path('T')
+            run = sb.run('trash-put', ['--trash-dir', td, '--', p], cwd=work)
+            tag = 'deep path (%d levels of %d CJK chars, leaf of %d bytes)' % (
+                levels, width, len(leaf.encode()))
+            if run['exit'] != 0 or os.path.lexists(p):
+                problems.append('%s: put failed: %s' % (tag, run['stderr'][-200:]))
+                continue
+            lst = sb.run('trash-list', ['--trash-dir', td])
+            if not lst['stdout'].rstrip('\n').endswith(' ' + p) or \
+                    lst['stdout'].startswith('?'):
+                problems.append('%s: trash-list prints %r...%r' % (
+                    tag, lst['stdout'][:25], lst['stdout'][-40:]))
+            rs = sb.run('trash-restore', ['--trash-dir', td, work], stdin='0\n',
+                        cwd=work)
+            if not os.path.lexists(p):
+                problems.append('%s: trash-restore did not put it back at the '
+                                'exact original location' % tag)
     # a foreign info (literal '+', '%2B', mixed case escapes): the readers must
     # decode by the spec's rule
     with Sandbox(repo) as sb:
